@@ -1124,8 +1124,16 @@ impl ObjFiber {
     }
 
     pub(crate) fn store_error_ip_or(&mut self, alternative: *const u8) {
-        self.current_frame_mut().expect("Expected CallFrame.").ip =
-            self.error_ip.unwrap_or(alternative);
+        let error_ip = self.error_ip;
+        let frame = self.current_frame_mut().expect("Expected CallFrame.");
+        let code = frame.closure.function.chunk.code.as_ptr_range();
+        frame.ip = alternative;
+        // An address recorded by a throw in another function must not be attributed to this frame.
+        if let Some(ip) = error_ip {
+            if code.contains(&ip) {
+                frame.ip = ip;
+            }
+        }
     }
 
     pub(crate) unsafe fn unchecked_native_frame_slot(&self, index: usize) -> Value {
